@@ -594,6 +594,42 @@ static Script gen(Rng& r, int size)
     Script s;
     bool obj = r.chance(1, 2);
     s.config = std::string(obj ? "obj" : "int") + (r.chance(1, 2) ? "-a" : "-d");
+    if (r.chance(1, 6)) {
+        // sequential differential (C12): one thread, iterator moved only inside the macros; compared with a plain
+        // list by the driver and by the Python oracle
+        std::vector<std::string> ops;
+        int key = 1;
+        int sessions = 1 + r.below(2 + size);
+        for (int h = 0; h < sessions; ++h) {
+            bool writer = h == 0 || r.chance(3, 4);
+            ops.push_back(writer ? "lw" : "lr");
+            int n = 2 + r.below(5 + 2 * size);
+            for (int i = 0; i < n; ++i) {
+                int k = r.below(writer ? 10 : 2);
+                std::string v = std::to_string(k < 8 ? key : 1 + r.below(std::max(1, key)));
+                if (k >= 2 && k < 7) {
+                    ++key;
+                }
+                if (k < 2) {
+                    ops.push_back("all");
+                } else if (k < 4) {
+                    ops.push_back("pf=" + v + ((obj && r.chance(1, 12)) ? "!" : ""));
+                } else if (k < 6) {
+                    ops.push_back("pb=" + v + ((obj && r.chance(1, 12)) ? "!" : ""));
+                } else if (k < 7) {
+                    ops.push_back((r.chance(1, 2) ? "ef=" : "eb=") + v);
+                } else if (k < 8) {
+                    ops.push_back("eri=" + std::to_string(r.below(4)));
+                } else {
+                    ops.push_back("erv=" + v);
+                }
+            }
+            ops.push_back("all");
+            ops.push_back("rel");
+        }
+        s.threads.push_back(ops);
+        return s;
+    }
     int nthreads = 1 + r.below(2 + size);
     int key = 1;
     // thread 1 often pre-populates the list
